@@ -24,6 +24,8 @@ Obj *make(int v);
 Obj *borrow(int i);
 Other *makeOther();
 int *newints(int n);
+std::string *newstr(int v);   // new'ed, caller-owned
+double *newdbls(int n);       // malloc'ed, caller-owned
 char *dupname(int v);         // malloc'ed, caller-owned; lengths 0, 1, 15, 16 and 40 included
 int *libints(int n);
 const std::string name(const Obj &o);
